@@ -242,6 +242,43 @@ def correspond(ctx, scale):
                     fail('simvq:gradient-leaks-between-positions', 'SimVQ: output at one position depends on another position', {})
         if not rot and not torch.allclose(J[0, 0, :, 0, 0, :], torch.eye(3), atol=1e-6):
             fail('simvq:ste-not-identity', 'SimVQ (straight-through): Jacobian is not the identity', {})
+    # ------------------------------------------------------------------ an EMA codebook whose buffer is ATTACHED to the caller's autograd graph: written through the
+    # public `codebook` setter from a tensor that requires grad (a data-dependent init without .detach()), or assigned from state_dict(keep_vars=True)
+    # of a learnable twin.  "EMA-maintained and frozen codebooks receive no gradient": nothing flows back into the tensor the codes came from
+    for ci in range(4 if not ctx.thorough else 16):
+        cos_g = ci % 2 == 1
+        via = ['setter', 'assign-keep-vars'][(ci // 2) % 2]
+        try:
+            vq_g = VectorQuantize(dim=3, codebook_size=5, use_cosine_sim=cos_g, decay=0.5, commitment_use_cross_entropy_loss=(ci % 4 == 3))
+            src = torch.randn(1, 5, 3, requires_grad=True)
+            if via == 'setter':
+                vq_g.codebook = (src * 1.0)[0] if not cos_g else torch.nn.functional.normalize(src * 1.0, dim=-1)[0]
+                leaf = src
+            else:
+                if cos_g:
+                    continue          # cosine codebooks cannot be learnable: no donor
+                donor = VectorQuantize(dim=3, codebook_size=5, learnable_codebook=True, ema_update=False)
+                vq_g.load_state_dict(donor.state_dict(keep_vars=True), assign=True)
+                leaf = donor._codebook.embed
+            for mode_g in ('eval', 'train-nograd-input', 'train', 'indices'):
+                vq_g.train(mode_g != 'eval')
+                xg = torch.randn(2, 3, 3, requires_grad=(mode_g == 'train'))
+                kw_g = dict(freeze_codebook=True)
+                if mode_g == 'indices':
+                    kw_g['indices'] = torch.randint(0, 5, (2, 3))
+                ret_g = vq_g(xg, **kw_g)
+                terms = [t for t in (ret_g if isinstance(ret_g, tuple) else (ret_g,)) if isinstance(t, torch.Tensor) and t.dtype.is_floating_point and t.requires_grad]
+                ev += 1
+                dist['attached_codebook_calls'] = dist.get('attached_codebook_calls', 0) + 1
+                if not terms:
+                    continue
+                g_leaf, = torch.autograd.grad(sum(t.sum() for t in terms), leaf, allow_unused=True, retain_graph=False)
+                if g_leaf is not None and float(g_leaf.abs().max()) != 0.0:
+                    fail(f'vq:gradient-reaches-source-of-ema-codebook:{via}', f'VectorQuantize(cosine={cos_g}) with its EMA codebook written via {via} from a tensor that requires grad, {mode_g} call: '
+                         f'gradient of norm {float(g_leaf.norm()):g} reaches that tensor through the codebook', dict(via=via, cosine=cos_g, mode=mode_g))
+                    break
+        except Exception as ex:
+            fail(f'vq:attached-codebook:exception:{type(ex).__name__}', f'{via}: {ex!r}', dict(via=via))
     # ------------------------------------------------------------------ parameters frozen by the caller (requires_grad_(False): a frozen tokenizer behind a
     # trainable encoder): the gradient that reaches the INPUT is the same as with trainable parameters - whether anything else needs a gradient is
     # not a reason to skip the straight-through / rotation step
